@@ -16,7 +16,8 @@ def duplicate_clauses(ctx):
                     'and re-yields every stored row; the loader yields every stored value; the copy is read from the very store '
                     'the saver filled; the saver is yielded before the loader; the copy descriptor is a deep copy with only name '
                     'and path changed, emitted right after the original or at the end')
-    saver = repo.func('dataflows.processors.duplicate:saver')
+    saver0 = repo.func('dataflows.processors.duplicate:saver')
+    saver = ctx.N(saver0)
     loader = repo.func('dataflows.processors.duplicate:loader')
     func = repo.func('dataflows.processors.duplicate:duplicate.func')
     # saver: insert_generator over enumerate(resource); key depends on idx; yields every row of gen
@@ -70,7 +71,7 @@ def duplicate_clauses(ctx):
     for s in sigs:
         ys = [y for _, y in s.yields]
         calls = [y.value for y in ys if isinstance(y.value, ast.Call)]
-        sv = [c for c in calls if any(isinstance(t, FuncInfo) and t is saver for t in res.resolve_call(c))]
+        sv = [c for c in calls if any(isinstance(t, FuncInfo) and t is saver0 for t in res.resolve_call(c))]
         ld = [c for c in calls if any(isinstance(t, FuncInfo) and t is loader for t in res.resolve_call(c))]
         if not sv and not ld:
             continue
@@ -232,15 +233,15 @@ def concatenate_clauses(ctx):
             facts = Facts(func, include_nested=False)
             y = s.yields[0][1].value if s.yields else None
             good = isinstance(y, ast.Call) and any(isinstance(t, FuncInfo) and t is cat0 for t in res.resolve_call(y))
-            chain = None
             if good:
-                for v in [y.args[0]] + list(facts.values_of(pseudo(y.args[0]) or '')):
-                    if isinstance(v, ast.Call) and res.external_name(v) == 'itertools.chain':
-                        chain = v
-            good = good and chain is not None and len(chain.args) == 2 and isinstance(chain.args[0], ast.List) and \
-                [pseudo(e) for e in chain.args[0].elts] == [rls[0].var] and isinstance(chain.args[1], ast.Call) and \
-                res.external_name(chain.args[1]) == 'itertools.islice' and pseudo(chain.args[1].args[0]) == itname and \
-                counter is not None and u(chain.args[1].args[1]) == '%s - 1' % counter
+                from sa.normalize import resolve_here
+                from sa.pattern import match_expr as _me
+                v = resolve_here(y.args[0], 0)
+                for _ in range(3):
+                    v = resolve_here(v, 0) if v is not None else v
+                pats = ['itertools.chain([%s], itertools.islice(%s, %s - 1))' % (rls[0].var, itname, counter),
+                        'chain([%s], islice(%s, %s - 1))' % (rls[0].var, itname, counter)]
+                good = counter is not None and any(_me(pt, v) is not None for pt in pats)
             run.check(good, 'CAT', where(repo, rls[0].node), func.qualname,
                       'chain([resource], islice(it, %s - 1))' % counter,
                       'the stream phase does not chain exactly the selected run (current resource + the next count-1 '
